@@ -565,7 +565,16 @@ class InProtocolBase(ProtocolMixin):
         return self.duration_from_unicode(cls, string)
 
     def boolean_from_bytes(self, cls, string):
-        return string.lower() in ('true', '1')
+        if isinstance(string, six.binary_type):
+            string = string.decode(self.default_string_encoding)
+
+        value = string.lower()
+        if value in ('true', '1'):
+            return True
+        if value in ('false', '0'):
+            return False
+
+        raise ValidationError(string, "%r is not a boolean")
 
     def byte_array_from_bytes(self, cls, value, suggested_encoding=None):
         encoding = self.get_cls_attrs(cls).encoding
